@@ -1,0 +1,19 @@
+//go:build verif
+
+// Contracts for package resolver, checked by /verif/govc (comment-only; not part of any normal build).
+
+package resolver
+
+//@ func reflect.ValueOf
+//@   trusted
+//@   benign
+//@ func (reflect.Value).Kind
+//@   trusted
+//@   benign
+
+// The context entries of a resolved (remote) DID document are arbitrary JSON values.
+//@ func (DIDKeyResolver).baseUrl
+//@   prop C18 C19
+//@   safety
+//@   requires doc != nil
+//@   loop 1 invariant true
